@@ -35,7 +35,7 @@ def afterRebal (fuel : Nat) (hB : Heap) (cell : Cell) (orig par item : Nat) : Op
 
 /-- the cell computation at the head of `remove(it)` -/
 def cellExpr (h : Heap) (it : Nat) : Cell :=
-  if h.parent it ≠ 0 then (if it = h.left (h.parent it) then Cell.left (h.parent it) else Cell.right (h.parent it)) else Cell.root
+  if h.parent it ≠ 0 then (if h.left (h.parent it) = it then Cell.left (h.parent it) else Cell.right (h.parent it)) else Cell.root
 
 theorem map_remove_succ_adj (fuel : Nat) (h : Heap) (it : Nat) (hl : h.left it ≠ 0) (hr : h.right it ≠ 0)
     (hh : h.height (h.left it) < h.height (h.right it)) (hadj : h.parent (h.next it) = it) :
